@@ -454,10 +454,15 @@ def run_query(spec):
         else:
             sysm = build_lpm(spec['backend'], QC, spec['N'])
         bd = Bounds(spec['N'], spec['B'], spec.get('Wk', 1), spec['K'], spec.get('n_exact'), spec.get('B_exact'), spec.get('W_exact'))
-        s, decode = encode(sysm, bd, spec['mode'])
+        s0, decode = encode(sysm, bd, spec['mode'])
+        # bit-blast + SAT is 2-10x faster than z3's default strategy on these formulas (measured: readahead_started 26 s vs 292 s);
+        # VERIF_BMC_SOLVER=default selects the default solver (used to cross-check the two once per encoding change)
+        if os.environ.get('VERIF_BMC_SOLVER', spec.get('solver', 'bitblast')) == 'default':
+            s = s0
+        else:
+            s = z3.Then('simplify', 'propagate-values', 'solve-eqs', 'elim-uncnstr', 'simplify', 'bit-blast', 'sat').solver()
+            s.add(s0.assertions())
         s.set('timeout', int(spec.get('timeout', 600) * 1000))
-        if spec.get('block'):
-            pass
         t1 = time.time()
         r = s.check()
         out = dict(spec=spec, result=str(r), secs=round(time.time() - t1, 2), build_secs=round(t1 - t0, 2), system=sysm.describe())
